@@ -6,4 +6,4 @@ CONSTANTS
   BoolAtoms = {"u"}
   Emit = TRUE
   CombSizes = {}
-  Forms = {"fld", "tix", "chain", "call"}
+  Forms = {"fld", "tix", "chain", "call", "callfld", "neg", "lit"}
